@@ -69,6 +69,15 @@ def len_compared_consts(body, facts=None):
                             px = px[3] if px[0] == "var" else px[1]
                         if px[0] == "call" and callee_name(px) == "len":
                             out.setdefault((st.rv.j["op"], y.const_int()), []).append((b.idx, st.line))
+        t = b.term
+        if t.kind == "switch" and t.j.get("discr_ty") == "usize":
+            dt = du.operand_term(t.discr, 8)
+            pd = dt
+            while pd[0] in ("var", "cast"):
+                pd = pd[3] if pd[0] == "var" else pd[1]
+            if pd[0] == "call" and callee_name(pd) == "len":
+                for v, _tg in t.j["targets"]:
+                    out.setdefault(("Eq", v), []).append((b.idx, t.line))
     return out
 
 
